@@ -115,7 +115,16 @@ class Term:
                         self.buf.append(Opq("literal-payload", z3.IntVal(0), z3.IntVal(j - i), ("literal", t[i:j])))
                         i = j
                         continue
-                self._atom(t[i])
+                ch = t[i]
+                if self.state == "ground" and ch >= " " and ch != "\x7f":
+                    # run of one printable glyph: a single write of n cells
+                    j = i + 1
+                    while j < n and t[j] == ch:
+                        j += 1
+                    self._glyph(ch, z3.IntVal(j - i))
+                    i = j
+                    continue
+                self._atom(ch)
                 i += 1
         elif isinstance(p, Rep):
             n = simp(p.n)
